@@ -27,6 +27,7 @@ func main() {
 	nG := flag.Int("gaters", 24, "number of gater scripts")
 	nL := flag.Int("limiters", 12, "number of limiter scripts")
 	doHosts := flag.Bool("hosts", true, "run the loopback host scenarios")
+	doSync := flag.Bool("sync", true, "run the sync RPC handler scenarios (pkg/consensus/sync handlers on a loopback node)")
 	in := flag.String("in", "", "replay: JSONL of records previously produced; re-executes the same scripts/scenarios")
 	flag.Parse()
 	if *out == "" {
@@ -48,6 +49,7 @@ func main() {
 	var gs []gScript
 	var ls []lScript
 	var hs []string
+	var ss []string
 
 	if *in != "" {
 		data, err := os.ReadFile(*in)
@@ -77,6 +79,14 @@ func main() {
 					panic(err)
 				}
 				hs = append(hs, h.Scenario)
+			case "sync":
+				var h struct {
+					Scenario string `json:"scenario"`
+				}
+				if err := json.Unmarshal([]byte(line), &h); err != nil {
+					panic(err)
+				}
+				ss = append(ss, h.Scenario)
 			}
 		}
 	} else {
@@ -91,6 +101,9 @@ func main() {
 			if ip6LoopbackWorks() {
 				hs = append(hs, "malformed_request_ip6")
 			}
+		}
+		if *doSync {
+			ss = append(ss, syncScenarioNames()...)
 		}
 	}
 
@@ -132,8 +145,19 @@ func main() {
 			hOut[i] = runHosts(hs[i])
 		}(i)
 	}
+	sOut := make([]sRec, len(ss))
+	for i := range ss {
+		wg.Add(1)
+		go func(i int) {
+			defer wg.Done()
+			sOut[i] = runSync(ss[i])
+		}(i)
+	}
 	wg.Wait()
 	for _, rec := range hOut {
+		o.Put(rec)
+	}
+	for _, rec := range sOut {
 		o.Put(rec)
 	}
 }
